@@ -54,7 +54,7 @@ proof { lemma_inv_exit(old, new, ops0, ops@); }
 # ------------------------------------------------------------------------------------------------- shift_diff_ops_up
 # the loop body is one query of ~4 s; it needs 20-30 M rlimit units depending on what else is in the unit (default limit 30 M)
 i, a, b = body_range(UP)
-o.lines[i:i] = ghost('#[verifier::rlimit(30)]')
+o.lines[i:i] = ghost('#[verifier::rlimit(150)]')
 i, a, b = body_range(UP)
 o.after('{', ENTRY, start=a, stmt=False, ind='    ')
 o.after('while let Some(prev_op__r)', INV + '''
@@ -107,7 +107,7 @@ o.lines[k:k] = ghost(EXIT, '    ')
 
 # ----------------------------------------------------------------------------------------------- shift_diff_ops_down
 i, a, b = body_range(DOWN)
-o.lines[i:i] = ghost('#[verifier::rlimit(30)]')
+o.lines[i:i] = ghost('#[verifier::rlimit(150)]')
 i, a, b = body_range(DOWN)
 o.after('{', ENTRY, start=a, stmt=False, ind='    ')
 o.after('while let Some(next_op__r)', INV + '''
